@@ -710,18 +710,26 @@ type Joined []Location
 // of locations have only one element, the elemnt will be returuned. Otherwise,
 // a Joined object will be returned.
 func Join(locs ...Location) Location {
-	list := LocationList{}
-	for _, loc := range locs {
-		list.Push(loc, true)
-	}
+	// A merge can leave an element that is joinable with its predecessor
+	// (a point, a between that becomes that point, a range starting there),
+	// so reduce until a pass merges nothing: the result must be what reading
+	// back its own string representation gives.
+	for n := -1; ; {
+		list := LocationList{}
+		for _, loc := range locs {
+			list.Push(loc, true)
+		}
 
-	switch list.Len() {
-	case 0:
-		panic("Join without arguments is not allowed")
-	case 1:
-		return list.Data
-	default:
-		return Joined(list.Slice())
+		switch m := list.Len(); {
+		case m == 0:
+			panic("Join without arguments is not allowed")
+		case m == 1:
+			return list.Data
+		case m == n:
+			return Joined(list.Slice())
+		default:
+			n, locs = m, list.Slice()
+		}
 	}
 }
 
